@@ -144,9 +144,17 @@ def run(pid, tier):
         pp = pywl.tier_params(tier)
         pres = common.pmap(pywl.worker, [{"di": i, "nv": pp["nv"], "nb": 0, "props": ["C17"]} for i in range(len(pd))])
         pinfo = _c17(check, pd, pres, "python")
-        tot["evals"] += sum(r["evals"] for r in pres)
-        tot["nontrivial"] = info.pop("nontrivial") | pinfo.pop("nontrivial")
-        extra.update({"rust": info, "python": pinfo, "backends": ["rust", "python"]})
+        from . import cxxwl
+        cd = cxxwl.prepare(check, tier, profiles=["bitfield", "array", "payload", "optional", "small", "structs", "mix"],
+                           n_per_profile=1 if tier == "quick" else 4)
+        if tier == "quick":
+            cd = cd[:4]   # one build per description: the C++ side is sampled in quick, full in thorough
+        cres = common.pmap(cxxwl.worker, [{"di": i, "nv": 8 if tier == "quick" else 20, "nb": 0, "props": ["C17"],
+                                           "flavours": ["asan"]} for i in range(len(cd))], nproc=8)
+        cinfo = _c17(check, cd, cres, "cxx")
+        tot["evals"] += sum(r["evals"] for r in pres) + sum(r["evals"] for r in cres)
+        tot["nontrivial"] = info.pop("nontrivial") | pinfo.pop("nontrivial") | cinfo.pop("nontrivial")
+        extra.update({"rust": info, "python": pinfo, "cxx": cinfo, "backends": ["rust", "python", "cxx"]})
     else:
         raise SystemExit("unknown rust check " + pid)
     if rc.dropped:
